@@ -334,3 +334,68 @@ def enum_return_sites(fi: FuncInfo, enum_name: str):
             if d and d.split(".")[-2:-1] == [enum_name]:
                 out.append((d.split(".")[-1], n))
     return out
+
+
+# ----------------------------------------------------------------------
+# truth-table reasoning about what holds on an out-edge of a test
+
+def bool_atoms(e, out=None):
+    """leaf atoms of a boolean expression (through and/or/not)"""
+    if out is None:
+        out = []
+    if isinstance(e, ast.BoolOp):
+        for v in e.values:
+            bool_atoms(v, out)
+    elif isinstance(e, ast.UnaryOp) and isinstance(e.op, ast.Not):
+        bool_atoms(e.operand, out)
+    else:
+        out.append(e)
+    return out
+
+
+def bool_eval(e, asg):
+    if isinstance(e, ast.BoolOp):
+        vs = [bool_eval(v, asg) for v in e.values]
+        return all(vs) if isinstance(e.op, ast.And) else any(vs)
+    if isinstance(e, ast.UnaryOp) and isinstance(e.op, ast.Not):
+        return not bool_eval(e.operand, asg)
+    return asg[id(e)]
+
+
+def edge_implies(test, label, classify, goal, max_atoms=8):
+    """Does taking the `label` edge of `test` imply `goal`?
+    classify(atom) -> (kind, polarity) or None; an atom of kind k with polarity p
+    contributes fact k = (atom value == p).  goal(facts: dict kind -> bool|None) -> bool.
+    Returns True only if goal holds under every truth assignment of the atoms that
+    is consistent with the edge, and at least one atom is classified."""
+    import itertools
+    atoms = bool_atoms(test)
+    if len(atoms) > max_atoms:
+        return False
+    kinds = {id(a): classify(a) for a in atoms}
+    if not any(kinds.values()):
+        return False
+    any_consistent = False
+    for bits in itertools.product([False, True], repeat=len(atoms)):
+        asg = {id(a): b for a, b in zip(atoms, bits)}
+        # atoms with identical source text must agree
+        texts = {}
+        okc = True
+        for a in atoms:
+            t = src(a)
+            if t in texts and texts[t] != asg[id(a)]:
+                okc = False
+            texts[t] = asg[id(a)]
+        if not okc:
+            continue
+        if bool_eval(test, asg) != (label == "T"):
+            continue
+        any_consistent = True
+        facts = {}
+        for a in atoms:
+            k = kinds[id(a)]
+            if k:
+                facts[k[0]] = (asg[id(a)] == k[1])
+        if not goal(facts):
+            return False
+    return any_consistent
